@@ -9,7 +9,8 @@ security  method_gate_bypass, request_uri_override
 codec     unpad_pad (after fixes/C18-unpad-empty.patch), unpadPinned_pad / unpadPinned_* (witnesses of the pinned code),
           b64_round_trip, ecb_round_trip, body_round_trip, reply_round_trip
 framing   verifySignature_ignores_content_length, csCovers_ignores_content_length, cs_handler_reads_signed_body,
-          cs_body_monitor_sound, cs_encrypted_goes_to_cryption, cs_encrypted_body_round_trip (after
+          cs_body_monitor_sound, crypt_monitor_sound, crypt_monitor_sound_on_handler, properlyEncrypted_of_encrypt,
+          cs_encrypted_goes_to_cryption, cs_encrypted_body_round_trip (after
           fixes/C18-chunked-body.patch), chunked_body_not_decrypted_pinned (witness of the pinned code)
 -/
 import GoZero.C18.Proofs
@@ -482,6 +483,80 @@ theorem cs_encrypted_body_round_trip (C : BlockCipher) (env : CsEnv) (cfg : CsCf
   · rw [cs_encrypted_goes_to_cryption C env cfg req inner h hg hp hv ht (by omega), hcl, hbody]
     apply h2
     rw [← hbody]; exact hlim
+
+/-- the monitor's notion of "the client encrypted `p` properly" holds of what a client computes -/
+theorem properlyEncrypted_of_encrypt (C : BlockCipher) (key : Bytes) (hk : C.keyOk key = true) (hs : C.Sound key)
+    (hbs : 0 < C.bs) (hbs' : C.bs ≤ 255) (p ct : Bytes) (he : ecbEncrypt C key p = some ct) :
+    properlyEncrypted C key (asciiBytes (b64Encode ct)) = some p := by
+  obtain ⟨k, hk'⟩ := pad_length C.bs hbs p
+  obtain ⟨l1, l2⟩ := cryptBlocks_round_trip C key hs hbs k _ hk'
+  obtain ⟨h1, h2⟩ := padLen_bounds C.bs p.length hbs
+  have hm : (pad C.bs p).length % C.bs = 0 := by rw [hk']; exact Nat.mul_mod_left _ _
+  have hct : ct = (chunks C.bs (pad C.bs p)).flatMap (C.enc key) := by
+    unfold ecbEncrypt at he
+    rw [if_pos hk] at he
+    unfold cryptBlocks at he
+    rw [if_neg (by omega)] at he
+    exact (Option.some.inj he).symm
+  have hkpos : 0 < k := by
+    rcases Nat.eq_zero_or_pos k with h0 | h0
+    · subst h0
+      unfold pad at hk'
+      simp only [List.length_append, List.length_replicate] at hk'
+      omega
+    · exact h0
+  have hctlen : ct.length = k * C.bs := by rw [hct]; exact l1
+  have hctpos : 0 < ct.length := by rw [hctlen]; exact Nat.mul_pos hkpos hbs
+  unfold properlyEncrypted
+  rw [bytesToString_asciiBytes_b64, b64Decode_encode]
+  simp only
+  have hne : ct.isEmpty = false := by
+    cases ct with
+    | nil => simp at hctpos
+    | cons => rfl
+  have hmod : ct.length % C.bs = 0 := by rw [hctlen]; exact Nat.mul_mod_left _ _
+  rw [if_neg (by simp [hne, hmod])]
+  rw [hct, l2]
+  unfold pad
+  generalize hn : C.bs - p.length % C.bs = n at h1 h2
+  rw [getLast?_append_replicate p n _ h1]
+  have hb : (UInt8.ofNat n).toNat = n := by
+    rw [UInt8.toNat_ofNat']; omega
+  simp only [hb, List.length_append, List.length_replicate]
+  rw [if_neg (by omega)]
+  have e1 : p.length + n - n = p.length := by omega
+  rw [e1, List.drop_left' rfl, List.take_left' rfl]
+  simp
+
+/-- the cryption monitor never fires on what the model answers to a properly encrypted payload -/
+theorem crypt_monitor_sound (C : BlockCipher) (key : Bytes) (hk : C.keyOk key = true) (hs : C.Sound key)
+    (hbs : 0 < C.bs) (hbs' : C.bs ≤ 255) (p reply : Bytes) :
+    cryptMonitor C key (some p) reply (flushResp C key p reply) = none := by
+  unfold cryptMonitor
+  cases hr : reply with
+  | nil => simp [flushResp]
+  | cons a t =>
+    obtain ⟨ct, he, _⟩ := ecb_round_trip C key hk hs hbs hbs' (a :: t)
+    have hpe := properlyEncrypted_of_encrypt C key hk hs hbs hbs' (a :: t) ct he
+    simp [flushResp, he, hpe]
+
+/-- … under both framings of the request: declared length and unknown length (chunked) -/
+theorem crypt_monitor_sound_on_handler (C : BlockCipher) (key : Bytes) (hk : C.keyOk key = true) (hs : C.Sound key)
+    (hbs : 0 < C.bs) (hbs' : C.bs ≤ 255) (limit : Int) (p ct : Bytes) (inner : Inner)
+    (he : ecbEncrypt C key p = some ct) (cl : Int)
+    (hfr : (cl = (asciiBytes (b64Encode ct)).length ∧ ¬ (limit > 0 ∧ cl > limit)) ∨
+           (cl = -1 ∧ ((asciiBytes (b64Encode ct)).length : Int) ≤ (if limit > 0 then limit else maxBytes))) :
+    cryptMonitor C key (properlyEncrypted C key (asciiBytes (b64Encode ct))) (inner p)
+      (cryptionHandler C limit key cl (asciiBytes (b64Encode ct)) inner) = none := by
+  rw [properlyEncrypted_of_encrypt C key hk hs hbs hbs' p ct he]
+  obtain ⟨ct', he', h1, h2⟩ := body_round_trip C key hk hs hbs hbs' limit p inner
+  have : ct' = ct := by rw [he] at he'; exact (Option.some.inj he').symm
+  subst this
+  rcases hfr with ⟨hcl, hlim⟩ | ⟨hcl, hlim⟩
+  · rw [hcl, h1 (by rw [← hcl]; exact hlim)]
+    exact crypt_monitor_sound C key hk hs hbs hbs' p (inner p)
+  · rw [hcl, h2 hlim]
+    exact crypt_monitor_sound C key hk hs hbs hbs' p (inner p)
 
 /-- witness (pinned code): with `ContentLength = -1` (chunked) the handler got the ciphertext text as it was sent -/
 theorem chunked_body_not_decrypted_pinned (C : BlockCipher) (limit : Int) (key raw : Bytes) (inner : Inner) :
